@@ -43,6 +43,11 @@ pub struct L1State {
     pub inst: Option<Inst>,
     pub cache_mode: String,
     pub parallelism: AzksParallelismConfig,
+    pub st: Option<crate::exec_l2::StState>,
+    /// mirror of the pending transaction log of `st` (for the oracles)
+    pub st_log: Vec<DbRecord>,
+    pub fx: Option<crate::exec_l3::FxState>,
+    pub fx_roots: Vec<[u8; 32]>,
 }
 
 impl Default for L1State {
@@ -56,6 +61,10 @@ impl Default for L1State {
             inst: None,
             cache_mode: "none".into(),
             parallelism: AzksParallelismConfig::disabled(),
+            st: None,
+            st_log: vec![],
+            fx: None,
+            fx_roots: vec![],
         }
     }
 }
@@ -526,6 +535,7 @@ pub fn step(ex: &mut Exec, toks: &[&str]) -> Option<String> {
 fn step_inner(ex: &mut Exec, st: &mut L1State, op: &str, toks: &[&str]) -> Option<String> {
     match op {
         "reset" if toks.len() == 2 => {
+            st.fx = None;
             let inst = st.rt.block_on(Inst::new(toks[1], &st.cache_mode, st.parallelism))?;
             st.inst = Some(inst);
             ex.stats.bump(op, toks[1]);
@@ -538,7 +548,11 @@ fn step_inner(ex: &mut Exec, st: &mut L1State, op: &str, toks: &[&str]) -> Optio
         }
         "vrf" if toks.len() == 5 => {
             // an input for the model's oracle table; re-derived here so a wrong table is noticed
-            let inst = st.inst.as_ref()?;
+            let cfgname: String = match (&st.inst, &st.fx) {
+                (Some(i), _) => i.cfg.clone(),
+                (None, Some(f)) => f.cfg.clone(),
+                _ => return None,
+            };
             let u = AkdLabel(parse_hex(toks[1])?);
             let fresh = match toks[2] {
                 "F" => VersionFreshness::Fresh,
@@ -548,7 +562,7 @@ fn step_inner(ex: &mut Exec, st: &mut L1State, op: &str, toks: &[&str]) -> Optio
             let v: u64 = toks[3].parse().ok()?;
             let l = parse_label(toks[4])?;
             let vrf = HardCodedAkdVRF {};
-            let real = with_cfg!(inst.cfg.as_str(), TC => st.rt.block_on(vrf.get_node_label::<TC>(&u, fresh, v))).ok()?;
+            let real = with_cfg!(cfgname.as_str(), TC => st.rt.block_on(vrf.get_node_label::<TC>(&u, fresh, v))).ok()?;
             Some(if real == l { "ok".into() } else { "vrf-mismatch".into() })
         }
         "dir.publish" => {
